@@ -163,42 +163,9 @@ func VInv[V any](t *Tree[int, V]) {
 	v.Assert(maxP <= 2*minP, "C07:path-ratio")
 }
 
-// absent: no unexpanded part of the tree can hold a key equivalent to k.
-func vAbsent(items []vl.Item, k int, label string) {
-	for _, it := range items {
-		if it.T != nil {
-			s := it.T.(interface{ vExcludes(k int) bool })
-			v.Assert(s.vExcludes(k), label)
-		}
-	}
-}
-
-func (s *VSum[V]) vExcludes(k int) bool {
-	ok := s.size == 0
-	if s.hasLo {
-		ok = v.Or(ok, !vl.Less(s.lo, k))
-	}
-	if s.hasHi {
-		ok = v.Or(ok, !vl.Less(k, s.hi))
-	}
-	return ok
-}
-
-// least t with t*t >= 2^(c-2): the least n+1 for which 2*log2(n+1)+2 >= c
-func vMinNPlus1(c int) int {
-	if c <= 2 {
-		return 1
-	}
-	t := 1
-	for t*t < 1<<(c-2) {
-		t++
-	}
-	return t
-}
-
 func vWork(n int) {
 	c := v.Ticks("cmp")
-	v.Assert(n+1 >= vMinNPlus1(c), "C07:comparator-calls-within-2log2(n+1)+2")
+	v.Assert(n+1 >= vl.RBMinNPlus1(c), "C07:comparator-calls-within-2log2(n+1)+2")
 }
 
 func VHPut() {
@@ -220,7 +187,7 @@ func VHRemove() {
 	VInv(t)
 	pre := VPre(root, nil)
 	if !vl.SeqRemove(pre, VPost(&t.Root, nil, 0), k, "C01:remove") {
-		vAbsent(pre, k, "C01:remove-absent-but-maybe-present")
+		vl.Absent(pre, k, "C01:remove-absent-but-maybe-present")
 	}
 }
 
@@ -235,27 +202,10 @@ func VHGet() {
 	v.EndOp()
 	pre := VPre(root, nil)
 	vl.SeqSame(pre, VPost(&t.Root, nil, 0), "C18:get-unchanged")
-	if found {
-		ok := false
-		for _, it := range pre {
-			if it.T == nil {
-				ok = v.Or(ok, v.And(vl.Equiv(it.K, k), it.V == x))
-			}
-		}
-		v.Assert(ok, "C01:get-value")
-		v.Assert(node != nil, "C01:getnode")
-		if node != nil {
-			v.Assert(v.And(vl.Equiv(node.Key, k), node.Value == x), "C01:getnode-value")
-		}
-	} else {
-		v.Assert(x == 0, "C01:get-zero")
-		v.Assert(node == nil, "C01:getnode-nil")
-		for _, it := range pre {
-			if it.T == nil {
-				v.Assert(!vl.Equiv(it.K, k), "C01:get-missed")
-			}
-		}
-		vAbsent(pre, k, "C01:get-missed-subtree")
+	vl.GetCheck(pre, k, x, found)
+	v.Assert(found == (node != nil), "C01:getnode")
+	if node != nil {
+		v.Assert(v.And(vl.Equiv(node.Key, k), node.Value == x), "C01:getnode-value")
 	}
 }
 
@@ -315,38 +265,11 @@ func VHNav() {
 	}
 	v.EndOp()
 	items := VPost(&t.Root, nil, 0)
-	v.Assert(found == (node != nil), "C02:found-iff-node")
+	nk, nv := 0, 0
 	if node != nil {
-		vl.Holds(items, node.Key, node.Value, "C02:result-is-an-element")
+		nk, nv = node.Key, node.Value
 	}
-	switch op {
-	case 0:
-		if found {
-			v.Assert(!vl.Less(q, node.Key), "C02:floor-not-above-key")
-			vl.Outside(items, true, node.Key, false, true, q, true, "C02:floor-greatest")
-		} else {
-			vl.Outside(items, false, 0, false, true, q, true, "C02:floor-notfound-but-exists")
-		}
-	case 1:
-		if found {
-			v.Assert(!vl.Less(node.Key, q), "C02:ceiling-not-below-key")
-			vl.Outside(items, true, q, true, true, node.Key, false, "C02:ceiling-least")
-		} else {
-			vl.Outside(items, true, q, true, false, 0, false, "C02:ceiling-notfound-but-exists")
-		}
-	case 2:
-		if found {
-			vl.Outside(items, false, 0, false, true, node.Key, false, "C02:left-least")
-		} else {
-			vl.Outside(items, false, 0, false, false, 0, false, "C02:left-nil-but-nonempty")
-		}
-	case 3:
-		if found {
-			vl.Outside(items, true, node.Key, false, false, 0, false, "C02:right-greatest")
-		} else {
-			vl.Outside(items, false, 0, false, false, 0, false, "C02:right-nil-but-nonempty")
-		}
-	}
+	vl.NavCheck(op, q, found, node != nil, nk, nv, items)
 }
 
 // vPick chooses an arbitrary node of the tree by a symbolic descent from the root.
@@ -372,17 +295,6 @@ func vPick[V any](t *Tree[int, V]) *Node[int, V] {
 	}
 }
 
-const (
-	VItNext = iota
-	VItPrev
-	VItBegin
-	VItEnd
-	VItFirst
-	VItLast
-	VItNextTo
-	VItPrevTo
-)
-
 // VHIter: one iterator call from an arbitrary cursor state (begin, end, or at an arbitrary node) (C08, C02).
 func VHIter() {
 	t, _ := VNewTree(v.Cfg("H"), vNewInt)
@@ -400,93 +312,33 @@ func VHIter() {
 	} else if pos == 2 {
 		it.End()
 	}
-	hasX := x != nil
 	xk := 0
-	if hasX {
+	if x != nil {
 		xk = x.Key
 	}
 	ok := false
-	moved := true
 	switch op {
-	case VItNext:
+	case vl.ItNext:
 		ok = it.Next()
-	case VItPrev:
+	case vl.ItPrev:
 		ok = it.Prev()
-	case VItBegin:
+	case vl.ItBegin:
 		it.Begin()
-		moved = false
-	case VItEnd:
+	case vl.ItEnd:
 		it.End()
-		moved = false
-	case VItFirst:
+	case vl.ItFirst:
 		ok = it.First()
-	case VItLast:
+	case vl.ItLast:
 		ok = it.Last()
 	}
-	var r *Node[int, int]
-	if ok {
-		r = it.Node()
-		v.Assert(r != nil, "C08:node-after-successful-move")
-		if r == nil {
-			return
-		}
+	r := it.Node()
+	if ok && r != nil {
 		v.Assert(v.And(it.Key() == r.Key, it.Value() == r.Value), "C08:key-value-of-position")
 	}
 	v.EndOp()
-	items := VPost(&t.Root, nil, 0)
-	if ok {
-		vl.Holds(items, r.Key, r.Value, "C08:position-is-an-element")
+	rk, rv := 0, 0
+	if r != nil {
+		rk, rv = r.Key, r.Value
 	}
-	if !moved {
-		// Begin/End: the next step must behave as from the sentinel
-		if op == VItBegin {
-			v.Assert(it.position == begin, "C08:begin-position")
-		} else {
-			v.Assert(it.position == end, "C08:end-position")
-		}
-		v.Assert(it.node == nil, "C08:sentinel-node")
-		return
-	}
-	forward := op == VItNext || op == VItFirst
-	fromBegin := op == VItFirst || (op == VItNext && pos == 0)
-	fromEnd := op == VItLast || (op == VItPrev && pos == 2)
-	switch {
-	case forward && fromBegin:
-		if ok {
-			vl.Outside(items, false, 0, false, true, r.Key, false, "C08,C02:first-is-least")
-		} else {
-			vl.Outside(items, false, 0, false, false, 0, false, "C08:next-from-begin-false-but-nonempty")
-		}
-	case forward && pos == 2:
-		v.Assert(!ok, "C08:next-saturates-at-end")
-	case forward:
-		if ok {
-			v.Assert(vl.Less(xk, r.Key), "C08,C02:next-ascends")
-			vl.Outside(items, true, xk, false, true, r.Key, false, "C08,C02:next-skips-nothing")
-		} else {
-			vl.Outside(items, true, xk, false, false, 0, false, "C08:next-false-but-later-element")
-		}
-	case fromEnd:
-		if ok {
-			vl.Outside(items, true, r.Key, false, false, 0, false, "C08,C02:last-is-greatest")
-		} else {
-			vl.Outside(items, false, 0, false, false, 0, false, "C08:prev-from-end-false-but-nonempty")
-		}
-	case pos == 0:
-		v.Assert(!ok, "C08:prev-saturates-at-begin")
-	default:
-		if ok {
-			v.Assert(vl.Less(r.Key, xk), "C08,C02:prev-descends")
-			vl.Outside(items, true, r.Key, false, true, xk, false, "C08,C02:prev-skips-nothing")
-		} else {
-			vl.Outside(items, false, 0, false, true, xk, false, "C08:prev-false-but-earlier-element")
-		}
-	}
-	if ok {
-		v.Assert(it.position == between, "C08:position-between")
-	} else if forward {
-		v.Assert(v.And(it.position == end, it.node == nil), "C08:position-end")
-	} else {
-		v.Assert(v.And(it.position == begin, it.node == nil), "C08:position-begin")
-	}
+	vl.IterCheck(op, pos, xk, ok, r != nil, rk, rv, int(it.position), VPost(&t.Root, nil, 0))
 }
